@@ -83,7 +83,9 @@ STEP_OPS = {
 # string another slot holds (shapes pinned): op -> (container slot, string slot, (M0, M1, M2))
 ELEM_ALIAS = {
     "ARR_SET": (2, 0, (ST, MINT, AR)), "STRUCT_SET": (1, 0, (ST, SU, SC)),
-    "ARR_GET": (1, 2, (MINT, AR, ST)), "ARR_REMOVE": (1, 2, (MINT, AR, ST)), "ARR_POP": (0, 1, (AR, ST, SC)),
+    "ARR_GET": (1, 2, (MINT, AR, ST)), "ARR_POP": (0, 1, (AR, ST, SC)),
+    # ARR_REMOVE.elem is OPEN (not registered): since the handler releases the removed element (fix 94617c6) the element-alias
+    # variant exhausts 10 GB even at capacity 3; the non-aliased census C14.step.ARR_REMOVE (+ .d1/.d2) closes
     "STRUCT_GET": (0, 1, (SU, ST, SC)), "UNION_FIELD": (0, 1, (UN, ST, SC)),
 }
 
@@ -124,9 +126,6 @@ def step_obligations():
             a["defines"].update({"VERIF_M0": m0, "VERIF_M1": m1, "VERIF_M2": m2, "VERIF_RC_EC": ec, "VERIF_RC_ES": es})
             a["defines"].pop("VERIF_RC_UNTYPED_LEAK", None)          # index operands are ints in these shapes
             a["tier"] = "thorough" if op in ELEM_THOROUGH else "quick"
-            if op == "ARR_REMOVE":      # the release of the removed element (fix 94617c6) on top of the tail shift: 10 GB at capacity 8
-                a["defines"]["VERIF_ARR_CAP"] = 3
-                a["strength"] = "B(array capacity <= 3)"
             obs.append(a)
         # operand underflow: the same step with only one / two slots on the stack (thorough tier)
         for depth in (1, 2):
